@@ -1,7 +1,7 @@
 SPECIFICATION Spec
 CONSTANTS
   NP = 3
-  NA = 4
+  NA = 2
   MaxStar = 2
   MaxTD = 2
   GenSigs = TRUE
